@@ -715,7 +715,8 @@ def validate(ctx, cases, label, report=True, split=1):
                 sig[fl] = True
             if c["masked"]:
                 sig["masked"] = True
-            ctx.report(sig, "%s [explained by %s]" % (WHAT.get(rj["clause"], rj["clause"]), sig["why"]),
+            ctx.report(sig, "%s [explained by %s%s]" % (WHAT.get(rj["clause"], rj["clause"]), sig["why"],
+                                                         "; first difference at " + sig["at"] if "at" in sig else ""),
                        {"prog": dict(c["prog"], pid=c["id"], legacy=c["legacy"], masked=c["masked"]), "verdict": rj,
                         "observed": c["obs"], "files": render({"files": c["prog"]["files"]})})
     return rejects
